@@ -15,6 +15,17 @@ package main
 // succeeds iff the current generation is the expected one. A refresh that
 // overwrites newer data shows up as a successful CAS whose expected generation
 // was no longer current.
+//
+// Lifetimes take part: a share of the writes carry a delegation lease of well
+// under a few milliseconds (real time), so entries run out in the middle of a
+// history. That puts claims that expire while their refresh is "in flight"
+// (Lookup ... CAS on the remembered entry) under every interleaving with client
+// writes. The model allows what expiry allows and nothing else: a Lookup may
+// miss on a short-lived generation (the reader then drops the entry, unless a
+// concurrent writer already replaced it — both outcomes are kept, the state is
+// a set of possible registers), and a CAS on an expired claim may succeed or
+// be refused exactly as on a live one: only while the claim is still the
+// current generation.
 
 import (
 	"fmt"
@@ -43,6 +54,9 @@ type casIn struct {
 	Key int    `json:"key"`
 	Exp uint32 `json:"exp,omitempty"` // CAS: generation of the expected entry
 	New uint32 `json:"new,omitempty"` // Set / CAS: generation written
+	// Short: the entry written carries a sub-millisecond-scale lease and may
+	// run out at any later point of the history
+	Short bool `json:"short,omitempty"`
 }
 
 type casOut struct {
@@ -56,6 +70,9 @@ type casEvent struct {
 	Out    casOut `json:"out"`
 	Call   int64  `json:"call"`
 	Ret    int64  `json:"ret"`
+	// ClaimExpired (CAS only, not an input of the model): the remembered entry
+	// had already run out when the write-back was issued
+	ClaimExpired bool `json:"claim_expired,omitempty"`
 }
 
 var casModel = porcupine.Model{
@@ -76,26 +93,48 @@ var casModel = porcupine.Model{
 		}
 		return out
 	},
-	Init: func() any { return uint32(0) },
+	Init: func() any { return casState{0} },
 	Step: func(state, input, output any) (bool, any) {
-		cur := state.(uint32)
 		in, out := input.(casIn), output.(casOut)
-		switch in.Op {
-		case casSet:
-			return true, in.New
-		case casCAS:
-			if out.OK {
-				return cur == in.Exp, in.New
+		var next casState
+		for _, c := range state.(casState) {
+			cur, short := uint32(c>>1), c&1 == 1
+			switch in.Op {
+			case casSet:
+				next = next.with(casCode(in.New, in.Short))
+			case casCAS:
+				if out.OK && cur == in.Exp {
+					next = next.with(casCode(in.New, in.Short))
+				}
+				if !out.OK && cur != in.Exp {
+					next = next.with(c)
+				}
+			case casLookup:
+				if out.Gen == cur {
+					next = next.with(c)
+				}
+				if out.Gen == 0 && cur != 0 && short {
+					// ran out: dropped by this reader, or replaced under it
+					next = next.with(0).with(c)
+				}
+			case casPurge:
+				next = next.with(0)
 			}
-			return cur != in.Exp, cur
-		case casLookup:
-			return out.Gen == cur, cur
-		case casPurge:
-			return true, uint32(0)
 		}
-		return false, cur
+		return len(next) > 0, next
 	},
-	Equal: func(a, b any) bool { return a.(uint32) == b.(uint32) },
+	Equal: func(a, b any) bool {
+		x, y := a.(casState), b.(casState)
+		if len(x) != len(y) {
+			return false
+		}
+		for i := range x {
+			if x[i] != y[i] {
+				return false
+			}
+		}
+		return true
+	},
 	DescribeOperation: func(input, output any) string {
 		in, out := input.(casIn), output.(casOut)
 		switch in.Op {
@@ -108,6 +147,29 @@ var casModel = porcupine.Model{
 		}
 		return fmt.Sprintf("purge(k%d)", in.Key)
 	},
+}
+
+// casState is the set of registers the key may hold (sorted, unique); a
+// register is generation<<1 | short-lived.
+type casState []uint64
+
+func casCode(gen uint32, short bool) uint64 {
+	c := uint64(gen) << 1
+	if short && gen != 0 {
+		c |= 1
+	}
+	return c
+}
+
+func (s casState) with(c uint64) casState {
+	i := sort.Search(len(s), func(i int) bool { return s[i] >= c })
+	if i < len(s) && s[i] == c {
+		return s
+	}
+	out := make(casState, 0, len(s)+1)
+	out = append(out, s[:i]...)
+	out = append(out, c)
+	return append(out, s[i:]...)
 }
 
 type casSeen struct {
@@ -123,11 +185,8 @@ func casResp(q dns.Question, gen uint32) *dns.Msg {
 	return m
 }
 
-func entryGen(e *cache.CacheEntry, q dns.Question) uint32 {
-	req := new(dns.Msg)
-	req.Question = []dns.Question{q}
-	req.RecursionDesired = true
-	m := e.ToMsg(req)
+func entryGen(e *cache.CacheEntry, _ dns.Question) uint32 {
+	m := cache.VerifC04EntryMsg(e)
 	if m == nil {
 		return 0
 	}
@@ -137,6 +196,15 @@ func entryGen(e *cache.CacheEntry, q dns.Question) uint32 {
 		}
 	}
 	return 0
+}
+
+// casLease draws the lease of one write: none, or one that ends within the
+// history.
+func casLease(rng interface{ IntN(int) int }) (time.Time, uint64, bool) {
+	if rng.IntN(100) >= 35 {
+		return time.Time{}, 0, false
+	}
+	return time.Now().Add(time.Duration(30+rng.IntN(1500)) * time.Microsecond), 0xC04, true
 }
 
 // runCASHistory runs one concurrent history against store and returns it.
@@ -172,16 +240,21 @@ func runCASHistory(r *vlib.Run, store *cache.Store, idx, goroutines, opsEach int
 					ev.In.Op = casSet
 					ev.In.New = gen.Add(1)
 					resp := casResp(q, ev.In.New)
+					cutUntil, cutKey, short := casLease(rng)
+					ev.In.Short = short
 					ev.Call = time.Since(base).Nanoseconds()
-					store.SetFromResponseWithKey(keys[k], resp, time.Time{}, 0)
+					store.SetFromResponseWithKey(keys[k], resp, cutUntil, cutKey)
 					ev.Ret = time.Since(base).Nanoseconds()
 				case pick < 60 && seen[k].e != nil:
 					ev.In.Op = casCAS
 					ev.In.Exp = seen[k].gen
 					ev.In.New = gen.Add(1)
 					resp := casResp(q, ev.In.New)
+					ev.ClaimExpired = seen[k].e.IsExpired()
+					cutUntil, cutKey, short := casLease(rng)
+					ev.In.Short = short
 					ev.Call = time.Since(base).Nanoseconds()
-					ev.Out.OK = store.ReplaceIfCurrent(keys[k], seen[k].e, resp, time.Time{}, 0)
+					ev.Out.OK = store.ReplaceIfCurrent(keys[k], seen[k].e, resp, cutUntil, cutKey)
 					ev.Ret = time.Since(base).Nanoseconds()
 					seen[k] = casSeen{} // a refresh claims an entry once
 				case pick < 92:
@@ -232,6 +305,16 @@ func judgeCASHistory(r *vlib.Run, idx int, evs []casEvent) {
 			} else {
 				casFail++
 			}
+			if e.ClaimExpired {
+				if e.Out.OK {
+					r.Count("cas_expired_claim_success", 1)
+				} else {
+					r.Count("cas_expired_claim_refused", 1)
+				}
+			}
+		}
+		if e.In.Short {
+			r.Count("cas_short_lived_writes", 1)
 		}
 		if i > 0 && e.Call < evs[i-1].Ret && e.In.Key == evs[i-1].In.Key {
 			overlaps++
